@@ -1,22 +1,23 @@
-//! Native replay / search of harness bodies on concrete inputs against the real crate.
+//! Native replay / bounded-exhaustive search of harness bodies on concrete inputs against the real crate.
 //!
-//!   replay run <harness> <u64 args...>     exit 0 = property held, 1 = violated (marker assertion or panic),
-//!                                          3 = harness precondition not met
-//!   replay search <harness> [seed]         enumerate the boundary alphabet of every argument (exhaustively when the
-//!                                          product is small, otherwise seeded random sampling) and print the first
-//!                                          violating input as `FOUND <harness> <args...>`; exit 1 if found, 0 if not
+//!   replay run <harness> <u64 args...>     exit 0 = property held, 1 = violated (marker assertion or forbidden panic),
+//!                                          3 = harness precondition not met, 2 = unknown harness
+//!   replay search <harness> [seed]         enumerate the per-argument domains (exhaustively when the product is small,
+//!                                          otherwise seeded random sampling); prints the first violating input as
+//!                                          `FOUND <harness> <args...>`; exit 1 if found, 0 if not
+//!   replay list                            one line per registered harness
 use std::panic;
 
-fn outcome(name: &str, v: &[u64]) -> Result<bool, String> {
-    let n = name.to_string();
+fn outcome(h: &vk::H, v: &[u64]) -> Result<(), String> {
+    let run = h.run;
     let vv = v.to_vec();
-    match panic::catch_unwind(move || vk::dispatch(&n, &vv)) {
-        Ok(b) => Ok(b),
+    match panic::catch_unwind(move || run(&vv)) {
+        Ok(()) => Ok(()),
         Err(e) => {
             let msg = e.downcast_ref::<String>().cloned().or_else(|| e.downcast_ref::<&str>().map(|s| s.to_string())).unwrap_or_default();
-            if !msg.starts_with("VF:") && vk::panic_allowed(name) {
+            if !msg.starts_with("VF:") && h.panic_ok {
                 // fail-stop behaviour of the code under test, not a verdict
-                return Ok(true);
+                return Ok(());
             }
             Err(msg)
         }
@@ -25,20 +26,39 @@ fn outcome(name: &str, v: &[u64]) -> Result<bool, String> {
 
 fn main() {
     let args: Vec<String> = std::env::args().skip(1).collect();
-    if args.len() < 2 {
-        eprintln!("usage: replay run|search <harness> <args...>");
+    if args.is_empty() {
+        eprintln!("usage: replay run|search|list <harness> <args...>");
         std::process::exit(2);
     }
-    let name = args[1].clone();
+    if args[0] == "list" {
+        for h in vk::registry() {
+            println!("{}\t{}\t{}\tkani={}\tpanic_ok={}\t{}", h.name, h.props.join(","), h.nargs, h.kani, h.panic_ok, h.bound);
+        }
+        return;
+    }
+    if args.len() < 2 {
+        std::process::exit(2);
+    }
+    let h = match vk::find(&args[1]) {
+        Some(h) => h,
+        None => {
+            println!("unknown harness {}", args[1]);
+            std::process::exit(2);
+        }
+    };
     match args[0].as_str() {
         "run" => {
             let v: Vec<u64> = args[2..].iter().map(|a| a.parse::<u64>().expect("numeric argument")).collect();
-            match outcome(&name, &v) {
-                Ok(true) => println!("REPLAY: property held on this input"),
-                Ok(false) => {
-                    println!("REPLAY: unknown harness or wrong arity");
-                    std::process::exit(2);
-                }
+            if v.len() != h.nargs {
+                println!("REPLAY: wrong arity");
+                std::process::exit(2);
+            }
+            if !(h.pre)(&v) {
+                println!("REPLAY: precondition of the harness not met");
+                std::process::exit(3);
+            }
+            match outcome(&h, &v) {
+                Ok(()) => println!("REPLAY: property held on this input"),
                 Err(msg) => {
                     println!("REPLAY: VIOLATED: {msg}");
                     std::process::exit(1);
@@ -47,31 +67,40 @@ fn main() {
         }
         "search" => {
             let seed: u64 = args.get(2).and_then(|s| s.parse().ok()).unwrap_or(0);
-            let doms = match vk::domains(&name) {
-                Some(d) => d,
-                None => {
-                    println!("SEARCH: unknown harness");
-                    std::process::exit(2);
-                }
-            };
+            let doms = (h.doms)();
             panic::set_hook(Box::new(|_| {}));
             let total: u128 = doms.iter().map(|d| d.len() as u128).product();
             let mut tried: u64 = 0;
+            let mut first: Option<String> = None;
+            // failures whose message is listed as a known finding are counted, not reported (so that a different
+            // violation of the same property is still found)
+            let known: Vec<String> = std::env::var("VK_KNOWN").unwrap_or_default().split('|').filter(|s| !s.is_empty()).map(|s| s.to_string()).collect();
+            let mut known_hits: u64 = 0;
             let mut check = |v: &[u64]| -> bool {
-                // preconditions are filtered by `vk::pre`
-                if !vk::pre(&name, v) {
+                if !(h.pre)(v) {
                     return false;
                 }
                 tried += 1;
-                if let Err(msg) = outcome(&name, v) {
-                    println!("FOUND {} {}", name, v.iter().map(|x| x.to_string()).collect::<Vec<_>>().join(" "));
+                if first.is_none() {
+                    first = Some(v.iter().map(|x| x.to_string()).collect::<Vec<_>>().join(" "));
+                }
+                if let Err(msg) = outcome(&h, v) {
+                    if known.iter().any(|k| msg.starts_with(k.as_str())) {
+                        if known_hits == 0 {
+                            println!("KNOWNHIT {} {} :: {}", h.name, v.iter().map(|x| x.to_string()).collect::<Vec<_>>().join(" "), msg);
+                        }
+                        known_hits += 1;
+                        return false;
+                    }
+                    println!("FOUND {} {}", h.name, v.iter().map(|x| x.to_string()).collect::<Vec<_>>().join(" "));
                     println!("MESSAGE {msg}");
                     return true;
                 }
                 false
             };
             let mut found = false;
-            if total <= 3_000_000 {
+            let exhaustive = total <= 4_000_000;
+            if exhaustive {
                 let mut idx = vec![0usize; doms.len()];
                 'outer: loop {
                     let v: Vec<u64> = idx.iter().zip(&doms).map(|(i, d)| d[*i]).collect();
@@ -93,8 +122,8 @@ fn main() {
                     }
                 }
             } else {
-                let mut s = seed.wrapping_mul(6364136223846793005).wrapping_add(1442695040888963407);
-                for _ in 0..2_000_000u64 {
+                let mut s = seed.wrapping_mul(6364136223846793005).wrapping_add(1442695040888963407) | 1;
+                for _ in 0..1_500_000u64 {
                     let v: Vec<u64> = doms
                         .iter()
                         .map(|d| {
@@ -110,8 +139,45 @@ fn main() {
                     }
                 }
             }
-            println!("SEARCHED {tried} inputs satisfying the precondition (domain product {total})");
+            println!("SEARCHED {tried} inputs satisfying the precondition (domain product {total}, exhaustive={exhaustive})");
+            if let Some(f) = first {
+                println!("SAMPLE {} {}", h.name, f);
+            }
             std::process::exit(if found { 1 } else { 0 });
+        }
+        "survey" => {
+            // triage aid: enumerate everything, group failures by message
+            let doms = (h.doms)();
+            panic::set_hook(Box::new(|_| {}));
+            let mut groups: std::collections::BTreeMap<String, (u64, String)> = Default::default();
+            let mut idx = vec![0usize; doms.len()];
+            let mut tried = 0u64;
+            'outer: loop {
+                let v: Vec<u64> = idx.iter().zip(&doms).map(|(i, d)| d[*i]).collect();
+                if (h.pre)(&v) {
+                    tried += 1;
+                    if let Err(msg) = outcome(&h, &v) {
+                        let e = groups.entry(msg).or_insert((0, v.iter().map(|x| x.to_string()).collect::<Vec<_>>().join(" ")));
+                        e.0 += 1;
+                    }
+                }
+                let mut k = 0;
+                loop {
+                    if k == idx.len() {
+                        break 'outer;
+                    }
+                    idx[k] += 1;
+                    if idx[k] < doms[k].len() {
+                        break;
+                    }
+                    idx[k] = 0;
+                    k += 1;
+                }
+            }
+            println!("SURVEYED {tried}");
+            for (m, (n, first)) in groups {
+                println!("{n}\t{m}\tfirst: {first}");
+            }
         }
         _ => std::process::exit(2),
     }
